@@ -46,7 +46,7 @@ Definition c16_corr_subs (c : c16_case) : bool :=
   && forallb (fun '(p, b) => Bool.eqb (subs_contains subs p) b) (c_contains c).
 
 Definition c16_corr_probe (c : c16_case) : bool :=
-  let t := mk_tg "c16" (c_reg c) (c_spec c) (c_outs c) (c_gen c) (c_paths c) true [] None in
+  let t := mk_tg "c16" (c_reg c) (c_spec c) (c_outs c) (c_gen c) (c_paths c) true [] None OPanic in
   corr_gen t && corr_paths t.
 
 (** ** property checkers on the observed data *)
